@@ -48,10 +48,25 @@ EXPLANATION = (
     "the shared columns are collected once for every column name present on both sides, with no early exit. (R4) optional kinds: right-only columns become optional exactly in LeftOuter / "
     "FullOuter, left-only (non-shared) columns exactly in RightOuter / FullOuter; semi / anti joins keep the left columns only. (R5) row selection: the table access kernels copy, for every "
     "column, exactly the addressed rows in order (scalar: row ix-1; index vector: output row k = source row ix[k]-1; logical mask: flagged rows packed in order) - kernel normal forms. "
-    "Not decided: the multiset of rows itself (values), the inside of the row builders, duplicate column names."
+    "(R6) row selection, allocation and kernel together: for every construction site of a table row-selection kernel (a function struct with a Ref<MechTable> source, an index operand "
+    "of type usize / vector of usize / vector of bool, and a result cell - found by field types), the compiler function that allocates the result, then solve() and out() of the struct "
+    "it builds, are evaluated from the compiler's expansion of their bodies over a closed finite model of the container values (lib/tabsim.py; helpers such as empty_table / get_record from "
+    "their own bodies) on every table of 0..3 rows and every index, index vector (length 0..3) and mask over it; the model result has exactly the selected rows in order in every column, "
+    "a row count and column lengths equal to their number and the source's columns, kinds and names. (R7) the same finite-model evaluation for the join operators: every compiler "
+    "function that reaches a construction site of a join kernel (two Ref<MechTable> operands, a table result, a mode field of an enum type) is evaluated on a finite table of operand pairs "
+    "(one, two and no shared column, 0..2 rows each, duplicate keys) and yields, as allocated and after solve(), exactly the multiset of rows relational algebra defines for the mode the "
+    "struct carries, over the union of the columns, with optional kinds exactly where a value can be missing. (R8) route agreement: the subscript dispatcher chooses the access compiler by the SHAPE of the evaluated index (match shape[..] with arms [1,1] / [n,1] / [1,n]) while "
+    "the table compilers accept by the KIND of the index value; for every such shape table whose compilers lead to a row-selection kernel, every model index value (scalar index, index "
+    "vector and mask of 1..3 elements; index vectors only where the operand passes through as_index) gets its shape from Value::shape(), the arm that shape selects is taken and its compiler, "
+    "evaluated on a table operand, must build the selection of exactly those rows; likewise the range-subscript arm on what Vec<usize>::to_value() makes of every contiguous range of rows. R6 / R7 / R8 decide these finite tables of the extracted code over a model of the "
+    "std / indexmap / nalgebra containers, the Ref cell and the Matrix storage interface - not the behaviour of the running program on arbitrary operands; a body outside the model is "
+    "recorded as undecided. Where R2 meets a form of the routine its role interpreter cannot classify and R7 decided every mode concerned, R2 records undecided instead of a violation. "
+    "Not decided: row values and multiplicities beyond the finite tables, other cell kinds, duplicate column names."
 )
 TECHNIQUE = ("role interpreter over the syntax tree of the join routine (abstract evaluation per JoinMode with helper inlining, constant propagation of the mode, iterator pipelines as loops, "
-             "guard clauses as facts): emission table per JoinMode, predicate normal form, column-discovery loop, optional-kind mode sets; routing tables token -> struct -> mode")
+             "guard clauses as facts): emission table per JoinMode, predicate normal form, column-discovery loop, optional-kind mode sets; routing tables token -> struct -> mode; "
+             "finite-model evaluation (lib/tabsim.py) of the row-selection kernels and of the join operators - allocating compiler function + solve() + out() - against the rows the property defines, "
+             "over finite tables of operands")
 
 WANT = {"Inner": {"pairs"}, "LeftOuter": {"pairs", "unmatched_lhs"}, "RightOuter": {"pairs", "unmatched_rhs"}, "FullOuter": {"pairs", "unmatched_lhs", "unmatched_rhs"},
         "LeftSemi": {"semi"}, "LeftAnti": {"anti"}}
@@ -502,14 +517,30 @@ def run(F, rep, tier):
     n_tok = check_tokens(items, rep, crate)
     rep.floor("C18-R1", "table operator tokens routed", n_tok, 6)
 
-    got, opt = check_join(items, rep, crate)
+    # R7 first: the modes whose result was DECIDED correct on the finite table of operand pairs.  Where the shape rules below meet a form of the routine they cannot
+    # classify, that verdict is the positive evidence that the mechanism is still there (undecided, not a violation); a wrong shape is reported regardless.
+    from rules.c18_joineval import run_r7
+    finite_ok = run_r7(F, rep)
+    got, opt = check_join(items, rep, crate, finite_ok=finite_ok)
     rep.analysed = dict(rep.analysed or {}, structs=structs)
     run_r5(F, rep)
+    from rules.c18_select import run_r6, run_r8
+    run_r6(F, rep)
+    run_r8(F, rep)
 
 
-def check_join(items, rep, crate):
-    """R2-R4 on the join routine found among `items` (recognised by signature)"""
+def check_join(items, rep, crate, finite_ok=frozenset()):
+    """R2-R4 on the join routine found among `items` (recognised by signature).  finite_ok: the JoinModes whose result C18-R7 decided correct on its finite table of
+    operand pairs; used ONLY to tell "a form this extractor cannot classify" (undecided) from "a mechanism that is gone" (violation) - never to excuse a shape that was
+    recognised and is wrong."""
     got, opt = {}, {}
+
+    def unanalysable(modes, key, why):
+        """the extractor could not classify a construct; the finite evaluation decided every mode concerned -> undecided (same obligation, discharged)"""
+        if modes and set(modes) <= set(finite_ok):
+            rep.note("undecided", {"rule": "C18-R2", "key": key, "why": why, "decided-by": "C18-R7 (finite table) for %s" % sorted(modes)})
+            return True
+        return False
     # ---------------- R2
     bj = join_routines(items)
     if not rep.check(len(bj) == 1, "C18-R2", "anchor:build_joined_table", "the join routine (two tables and a JoinMode -> table) was not found (%d)" % len(bj)):
@@ -521,6 +552,9 @@ def check_join(items, rep, crate):
         for mo in MODES:
             runs[mo] = ModeRun(items, routine, mo)
     except (A.GiveUp, RecursionError, IndexError, TypeError, KeyError, ValueError, AttributeError) as ex:
+        if unanalysable(MODES, "anchor:join-routine-not-analysable", "the role interpreter gave up (%s)" % ex):
+            rep.ok("C18-R2", "anchor:left-row-loop")
+            return got, opt
         rep.bad("C18-R2", "anchor:join-routine-not-analysable", "the join routine could not be evaluated symbolically (%s)" % ex, where)
         return got, opt
     em = {mo: r.emissions() for mo, r in runs.items()}
@@ -529,6 +563,9 @@ def check_join(items, rep, crate):
         return {l for _, it in es for l in it["loops"] if l in r.left_loops}
     n_left = {mo: len(emitting_left_loops(runs[mo], em[mo])) for mo in MODES}
     ok_anchor = all(runs[mo].out_rows is not None for mo in MODES) and all(n == 1 for n in n_left.values())
+    if not ok_anchor and unanalysable(MODES, "anchor:left-row-loop", "the loop over the left rows was not found in a form the role interpreter knows (%s)" % n_left):
+        rep.ok("C18-R2", "anchor:left-row-loop")
+        return got, opt
     if not rep.check(ok_anchor, "C18-R2", "anchor:left-row-loop", "the loop over the left rows that emits the output rows of every mode was not found (%s)" % n_left, where):
         return got, opt
     bad_left = sorted({A.show(r.I.loops[l]["src"]) for mo, r in runs.items() for l in emitting_left_loops(r, em[mo])
@@ -557,12 +594,24 @@ def check_join(items, rep, crate):
         rl = [l for l in it["loops"] if l in r.right_loops]
         if not (len(it["loops"]) == 1 and r.range_over_rows(rl[-1], R) and not r.I.loops[rl[-1]]["adapt"]):
             tail_ok = False
-    rep.check(tail_ok, "C18-R2", "unmatched-right-block", "the block that emits the unmatched right rows (loop over 1..=rhs.rows skipping the marked rows) was not recognised", where)
+    unclassified = {mo for mo in MODES if any(c.startswith(("other:", "odd-")) for c in got[mo])}
+    if not tail_ok and unanalysable([mo for mo in MODES if "unmatched_rhs" in WANT[mo]], "unmatched-right-block", "the block that emits the unmatched right rows has a form the role interpreter does not classify"):
+        rep.ok("C18-R2", "unmatched-right-block")
+    else:
+        rep.check(tail_ok, "C18-R2", "unmatched-right-block", "the block that emits the unmatched right rows (loop over 1..=rhs.rows skipping the marked rows) was not recognised", where)
     rep.floor("C18-R2", "JoinMode arms analysed", len([mo for mo in MODES if got[mo]]), 6)
     for mo in sorted(set(WANT) | set(got)):
         g = got.get(mo, set())
         w = WANT.get(mo)
         ok = w is not None and g == w
+        if not ok and w is not None and mo in unclassified and {c for c in g if not c.startswith(("other:", "odd-"))} <= w and \
+                unanalysable([mo], "mode:%s" % mo, "an emission of this mode has a form the role interpreter does not classify (%s)" % sorted(g)):
+            # every class that WAS recognised belongs to the mode; the unclassified emission is decided by the finite evaluation
+            rep.ok("C18-R2", "mode:%s" % mo)
+            if "unmatched_rhs" in w:
+                # the marks are only observable through the unmatched right rows, which the finite evaluation decided for this mode
+                rep.ok("C18-R2", "mode:%s:marks-matched-right-rows" % mo)
+            continue
         rep.check(ok, "C18-R2", "mode:%s" % mo if ok else "mode:%s:emits-%s" % (mo, "+".join(sorted(g)) or "nothing"),
                   "JoinMode::%s emits %s; relational algebra defines %s" % (mo, sorted(g), sorted(w) if w else "no such mode"), where, sample={"mode": mo, "emits": sorted(g)})
         if w and "unmatched_rhs" in w:
@@ -713,7 +762,10 @@ def run_r5(F, rep):
     rep.rule("C18-R5", "row selection: the table access kernels copy, for every column, exactly the addressed rows in order - scalar: row ix-1 of each column; index vector: output row k "
                        "is source row ix[k]-1; logical mask: the rows whose flag is set, packed in order (kernel normal forms)")
     S = X.load_fxn_structs(F, ["mech_interpreter.lib"])
-    want = {"TableAccessScalarF", "TableAccessRangeIndex", "TableAccessRangeBool"}
+    # the row-selection kernels are enumerated from the code (field types: a Ref<MechTable> source, an index operand, the result cell), as for R6
+    from rules.c18_select import selection_kernels
+    forms = {k: v["form"] for k, v in selection_kernels(F.syn("mech_interpreter.lib")).items()}
+    want = set(forms)
     n = 0
     for (crate, name), fs in sorted(S.items()):
         if name not in want or fs.solve is None:
@@ -737,9 +789,9 @@ def run_r5(F, rep):
                 bad = "the value is not an element of the SAME column of the source table: %s" % val
             else:
                 cv, row = mcol.group(1), mcol.group(2)
-                if name == "TableAccessScalarF":
+                if forms[name] == "scalar":
                     ok = tgt == "out.data[<colkey,%s>]" % cv and row == "(ix - 1)" and not conds
-                elif name == "TableAccessRangeIndex":
+                elif forms[name] == "index-vector":
                     mt = re.match(r"<column,out\.data,%s>\[(\w+)\]$" % cv, tgt)
                     ok = bool(mt) and row == "(ix[%s] - 1)" % mt.group(1) and not conds
                 else:
